@@ -327,7 +327,9 @@ pub fn reader_logical(rng: &mut Rng, comps: &[Comp]) -> Logical {
     }
     Logical {
         comp,
-        packaging: Packaging::Loose,
+        // loose files (one FileSource per pack) or everything concatenated in one file (all packs
+        // are regions of one FileSource and share its lock)
+        packaging: *rng.pick(&[Packaging::Loose, Packaging::Concat]),
         n_packs: packs,
         contents,
         schema: SchemaSpec {
